@@ -18,6 +18,7 @@ type verifRemote struct {
 	token    string // "" = answers without a token
 	values   bool
 	lists    []int // remotes it lists in nodes
+	extra    []krpc.NodeInfo // further entries of its nodes list (e.g. another remote under a second ID)
 	gotGP    int   // get_peers received
 	announce []krpc.Msg
 }
@@ -71,6 +72,7 @@ func (n *verifC16Net) absorb() {
 				o := n.remotes[j]
 				ret.Nodes = append(ret.Nodes, krpc.NodeInfo{ID: o.id, Addr: krpc.NodeAddr{IP: o.addr.IP, Port: o.addr.Port}})
 			}
+			ret.Nodes = append(ret.Nodes, r.extra...)
 			n.pending = append(n.pending, verifDatagram{b: verifEncode(krpc.Msg{Y: "r", T: w.msg.T, R: ret}, 80), n: -1, addr: r.addr})
 		case "announce_peer":
 			r.announce = append(r.announce, w.msg)
